@@ -71,6 +71,19 @@ AesSeqViol(e) ==
                      ~Has(r, "panic") /\ ~r.err /\ Has(r, "payload") /\ r.payload = e.packets[i].payload, c)
           : i \in 1..Len(e.got) }
   \cup Check("C08", "aes-decode-returns-original-payload-on-a-used-layer", Len(e.got) = Len(e.packets), c)
+V2SeqViol(e) ==
+  LET c == Ctx(e) IN
+  UNION { LET r == e.got[i]  x == e.steps[i].exp  after == i > 1 IN
+          Check("C05", "decoder-total-no-panic", ~Has(r, "panic"), c)
+          \cup (IF Has(r, "panic") THEN Check("C08", "round-trip-holds-at-every-point-of-a-packet-sequence", FALSE, c)
+                ELSE LET ok == IF e.steps[i].op = "serialize" THEN (~r.err /\ r.bytes = x.bytes)
+                               ELSE IF x.err THEN r.err
+                               ELSE (~r.err /\ Agrees(r.value, x.value) /\ Has(r, "payload") /\ r.payload = x.payload)
+                     IN Check("C08", "round-trip-holds-at-every-point-of-a-packet-sequence", ok, c)
+                        \cup (IF after THEN Check("C17", "used-wrapper-and-hash-behave-like-fresh-ones", ok, c) ELSE {})
+                        \cup (IF x.err THEN Check("C07", "malformed-input-rejected", ok, c) ELSE {}))
+          : i \in 1..Len(e.got) }
+  \cup Check("C08", "round-trip-holds-at-every-point-of-a-packet-sequence", Len(e.got) = Len(e.steps), c)
 NewViol == LET e == Ev IN
   IF Has(e, "harnessError") THEN Check("HARNESS", "vector", FALSE, [layer |-> "?", class |-> "?"])
   ELSE IF e.kind = "decode" THEN DecodeViol(e)
@@ -78,6 +91,7 @@ NewViol == LET e == Ev IN
   ELSE IF e.kind = "serialize" THEN SerViol(e)
   ELSE IF e.kind = "aes" THEN AesViol(e)
   ELSE IF e.kind = "aesseq" THEN AesSeqViol(e)
+  ELSE IF e.kind = "v2seq" THEN V2SeqViol(e)
   ELSE IF e.kind = "func" THEN Check("C05", "function-no-panic", ~Has(e.got, "panic"), Ctx(e))
                                \cup (IF Has(e.got, "panic") THEN Check(e.prop, "agrees-with-mathematical-definition", FALSE, Ctx(e))
                                      ELSE Check(e.prop, "agrees-with-mathematical-definition", Agrees(e.got, e.exp), Ctx(e)))
